@@ -1,2 +1,374 @@
-/- Model driver for C08 (line protocol). Stub until the property's model lands. -/
-def main : IO Unit := pure ()
+/-
+  Model driver for C08 (line protocol). Imports Model only.
+    trace <ev.t.a.b.c,ev.t.a.b.c,...>   ->  "accept <events> <model steps>"  |  "reject at <index> ev=<code> : <reason>"
+  The trace is the list of protocol events recorded by harness/c08_main.c (harness-level events 100..107) and by hook H3 in
+  stream_encoder_mt.c (110..160) while the threads were serialised by the controlled scheduler. The driver replays it through
+  `MtEnc.step`: every event must correspond to an enabled transition of the model, and every observable carried by the events
+  (return codes, consumed/produced counts of each lzma_code call, lzma_filters_update results, lzma_get_progress values,
+  worker positions, published sizes) must equal what the model computes. Bytes are replayed by length only (all zeros);
+  the encoded size of each Block is taken from the worker's own publish event.
+-/
+import XzVerif.Model.Proto
+import XzVerif.Model.MtEnc
+open XzVerif XzVerif.Proto XzVerif.MtEnc
+
+structure Rec where
+  ev : Nat
+  t : Nat
+  a : Nat
+  b : Nat
+  c : Nat
+  deriving Inhabited
+
+def parseRec (w : String) : Option Rec :=
+  match (w.splitOn ".").map String.toNat? with
+  | [some e, some t, some a, some b, some c] => some ⟨e, t, a, b, c⟩
+  | _ => none
+
+def zeros (n : Nat) : Bytes := List.replicate n 0
+
+def vliSize (n : Nat) : Nat := if n < 128 then 1 else 1 + vliSize (n / 128)
+decreasing_by omega
+
+def indexSize (recs : List (Nat × Nat)) : Nat :=
+  let u := 1 + vliSize recs.length + (recs.map fun r => vliSize r.1 + vliSize r.2).sum
+  (u + 3) / 4 * 4 + 4
+
+/-- Per-stream tables collected by a first pass over the trace. -/
+structure Tab where
+  size : Array Nat := #[]       -- encoded size of Block `ord` (0 if never published)
+  unp : Array Nat := #[]        -- Unpadded Size of Block `ord`
+  alloc : Nat := 0
+  deriving Inhabited
+
+def mkParams (t : Tab) : Params where
+  hdr := zeros 12
+  enc := fun o _ _ => zeros (t.size.getD o 0)
+  unpadded := fun o _ _ => t.unp.getD o 0
+  tailBytes := fun idx => zeros (indexSize idx + 12)
+  alloc := t.alloc
+
+/-- First pass: split the trace into streams and collect, per stream, the published size of every Block. -/
+def prescan (evs : Array Rec) : Array Tab := Id.run do
+  let mut tabs : Array Tab := #[]
+  let mut cur : Tab := {}
+  let mut started := false
+  let mut nblk := 0
+  let mut tidOrd : List (Nat × Nat) := []
+  for r in evs do
+    if r.ev == 102 then
+      -- the workers of the previous Stream may still publish until threads_end() has joined them (event 104)
+      pure ()
+    else if r.ev == 104 then
+      if started then tabs := tabs.push cur
+      cur := { alloc := r.b }; started := true; nblk := 0; tidOrd := []
+    else if r.ev == 112 then
+      -- a Block is started iff a thread was popped or a new one can be created
+      if r.a == 1 || r.b < r.c then
+        let tid := if r.a == 1 then r.t else r.b
+        tidOrd := (tid, nblk) :: tidOrd.filter (·.1 != tid)
+        cur := { cur with size := cur.size.push 0, unp := cur.unp.push 0 }
+        nblk := nblk + 1
+    else if r.ev == 160 then
+      match tidOrd.find? (·.1 == r.t) with
+      | some (_, o) =>
+        if r.c == 2 then cur := { cur with size := cur.size.set! o r.a, unp := cur.unp.set! o r.b }
+        tidOrd := tidOrd.filter (·.1 != r.t)
+      | none => pure ()
+  if started then tabs := tabs.push cur
+  return tabs
+
+structure DS where
+  s : St := {}
+  P : Params := mkParams {}
+  started : Bool := false
+  stream : Nat := 0
+  tidOrd : List (Nat × Nat) := []      -- busy workers: thread index -> ordinal of their Block
+  pendingAssign : Option Nat := none
+  callIn : Nat := 0
+  callOut : Nat := 0
+  steps : Nat := 0
+
+def actOf : Nat → Option Action
+  | 0 => some .run | 2 => some .fullFlush | 3 => some .finish | 4 => some .fullBarrier | _ => none
+
+def stateOf : Nat → Option WState
+  | 0 => some .idle | 1 => some .run | 2 => some .finish | 3 => some .stop | 4 => some .exit | _ => none
+
+abbrev M := Except String
+
+def app (d : DS) (e : Ev) (what : String) : M DS :=
+  match step d.P d.s e with
+  | some s' => pure { d with s := s', steps := d.steps + 1 }
+  | none => throw s!"model transition not enabled: {what} (main pc {repr d.s.mpc}, queue {d.s.outq.length}, idle {d.s.idle}, ninit {d.s.ninit})"
+
+def idxOf (d : DS) (tid : Nat) : Option Nat :=
+  match d.tidOrd.find? (·.1 == tid) with
+  | some (_, o) => d.s.outq.findIdx? (·.ord == o)
+  | none => none
+
+def workerAt (d : DS) (i : Nat) : Option (Entry × WCtx) :=
+  match d.s.outq[i]? with
+  | some e => e.wk.map fun w => (e, w)
+  | none => none
+
+/-- If the model's worker is still asleep without a signal, the real wake-up was spurious. -/
+def ensureAwake (d : DS) (i : Nat) : M DS :=
+  match workerAt d i with
+  | some (_, w) => if w.asleep && !w.woken then app d (.wSpurious i) "spurious wake-up of a worker" else pure d
+  | none => throw "no worker attached to this queue entry in the model"
+
+def ensureMainAwake (d : DS) : M DS :=
+  if d.s.mpc == .waiting && !d.s.mWoken then app d .mSpurious "spurious wake-up of the main thread" else pure d
+
+def expect (c : Bool) (msg : String) : M Unit := if c then pure () else throw msg
+
+/-- Next event with code `code` for thread `tid`, searching from `from`, stopping at `stop` codes of the same thread. -/
+def lookahead (evs : Array Rec) (start : Nat) (tid : Nat) (code : Nat) (stops : List Nat) : Option Rec := Id.run do
+  let mut i := start
+  while i < evs.size do
+    let r := evs[i]!
+    if r.t == tid then
+      if r.ev == code then return some r
+      if stops.contains r.ev then return none
+    i := i + 1
+  return none
+
+def healthy (s : St) : Bool := s.err.isNone && s.mpc != .failed && s.mpc != .ending && s.mpc != .dead
+
+def feed (tabs : Array Tab) (evs : Array Rec) (k : Nat) (d : DS) (r : Rec) : M DS := do
+  match r.ev with
+  | 102 =>
+    let cfg : Cfg := { bs := r.b, tmax := r.a, timeout := r.c, chain := r.t }
+    if !d.started then
+      let P := mkParams (tabs.getD 0 {})
+      pure { d with s := initSt cfg P, P := P, started := true, stream := 0 }
+    else
+      app d (.reinit cfg) "lzma_stream_encoder_mt on the used handle"
+  | 104 =>
+    expect (r.a == 0) s!"init returned {r.a}"
+    if d.stream == 0 && d.s.mpc != .ending then pure d
+    else
+      -- the new Stream uses the tables of the next stream
+      let P := mkParams (tabs.getD (d.stream + 1) {})
+      let d1 := { d with P := P }
+      let d2 ← app d1 .mJoin "threads_end: all joined (re-init)"
+      pure { d2 with stream := d.stream + 1, tidOrd := [], pendingAssign := none }
+  | 103 => app d .lzmaEnd "lzma_end"
+  | 105 => app d .mJoin "threads_end: all joined (lzma_end)"
+  | 100 =>
+    match actOf r.c with
+    | none => throw "bad action"
+    | some act =>
+      let d1 ← app d (.call (zeros r.a) r.b act) "lzma_code"
+      let d2 := { d1 with callIn := r.a, callOut := r.b }
+      if d2.s.mpc == .hdrOut then app d2 .mHdr "stream header" else pure d2
+  | 101 =>
+    let d1 ← if d.s.mpc == .tailOut then app d .mTail "index/footer" else pure d
+    expect (d1.s.mpc == .out || d1.s.mpc == .failed) s!"lzma_code returned but the model is at {repr d1.s.mpc}"
+    let mret := match d1.s.lastRet with | some (_, x) => (if x == TIMED_OUT then OK else x) | none => 999
+    let consumed := d1.callIn - d1.s.inp.length
+    let produced := d1.callOut - d1.s.cap
+    -- LZMA_BUF_ERROR (10) is the wrapper's rendering of a second LZMA_OK without progress
+    let rret := if r.a == 10 && consumed == 0 && produced == 0 then 0 else r.a
+    expect (mret == rret) s!"return code {r.a}, model {mret}"
+    expect (consumed == r.b) s!"consumed {r.b}, model {consumed}"
+    expect (produced == r.c) s!"produced {r.c}, model {produced}"
+    pure d1
+  | 107 => pure d
+  | 119 =>
+    if healthy d.s then
+      expect (d.s.progIn == r.a && d.s.progOut == r.b) s!"coder->progress = ({r.a},{r.b}), model ({d.s.progIn},{d.s.progOut})"
+    pure d
+  | 120 =>
+    if healthy d.s then
+      match idxOf d r.t with
+      | some i =>
+        match workerAt d i with
+        | some (_, w) => expect (w.progIn == r.a && w.progOut == r.b) s!"thread {r.t} progress = ({r.a},{r.b}), model ({w.progIn},{w.progOut})"
+        | none => throw "no worker"
+      | none => expect (r.a == 0 && r.b == 0) s!"idle thread {r.t} reports progress ({r.a},{r.b})"
+    pure d
+  | 106 =>
+    let d1 ← app d (.update r.a) "lzma_filters_update"
+    expect (d1.s.lastUpd == some r.b) s!"lzma_filters_update returned {r.b}, model {repr d1.s.lastUpd}"
+    pure d1
+  | 110 =>
+    let before := d.s.done.length
+    let d1 ← app d .mRead "read the queue"
+    expect ((r.a == 1) == (d1.s.done.length == before + 1)) s!"lzma_outq_read returned {r.a} but the model delivered {d1.s.done.length - before} Block(s)"
+    pure d1
+  | 112 =>
+    expect (d.s.mpc == .encIn && !d.s.thr) "get_thread while the model is not looking for a thread"
+    expect ((r.a == 1) == (d.s.idle > 0)) s!"threads_free {if r.a == 1 then "non-empty" else "empty"} but the model has {d.s.idle} idle workers"
+    let ord := d.s.nblk
+    let d1 ← app d .mEncIn "get_thread"
+    if d1.s.thr then
+      let tid := if r.a == 1 then r.t else r.b
+      pure { d1 with tidOrd := (tid, ord) :: d1.tidOrd.filter (·.1 != tid), pendingAssign := some tid }
+    else
+      expect (r.a == 0 && r.b == r.c) "the model found no thread but the implementation did"
+      pure d1
+  | 113 =>
+    let d1 ← app d .mEncIn "get_thread: no free output buffer"
+    expect (d1.s.mpc == .afterIn) "model expected a free output buffer"
+    pure d1
+  | 111 => pure { d with pendingAssign := none }
+  | 114 =>
+    expect (d.s.thr) "input copied but the model has no open Block"
+    let d1 ← app d .mEncIn "copy input to the worker"
+    if r.c == 0 then
+      if r.b == 1 then
+        expect (!d1.s.thr) "finish flag differs"
+      else
+        expect (d1.s.thr) "finish flag differs"
+      match d1.s.outq.getLast? with
+      | some e => expect (e.data.length == r.a) s!"thr->in_size {r.a}, model {e.data.length}"
+      | none => throw "queue empty"
+    pure d1
+  | 115 =>
+    let d1 ← app d .mEncIn "stream_encode_in done"
+    expect (d1.s.mpc == .afterIn) "model: stream_encode_in is not done"
+    pure d1
+  | 116 =>
+    expect (d.s.mpc == .afterIn) s!"after stream_encode_in, model at {repr d.s.mpc}"
+    app d .mAfterIn "wait-or-return decision"
+  | 117 =>
+    let d0 ← ensureMainAwake d
+    let d1 ← app d0 .mWake "wait_for_work: condition false, wait"
+    expect (d1.s.mpc == .waiting) "the implementation waits but the model's wait condition holds"
+    pure d1
+  | 118 =>
+    if r.a == 1 then app d .mTimeout "wait_for_work: timed out"
+    else
+      let d0 ← ensureMainAwake d
+      let d1 ← app d0 .mWake "wait_for_work: condition true"
+      expect (d1.s.mpc == .loopTop) "the implementation stopped waiting but the model's wait condition is false"
+      pure d1
+  | 122 =>
+    match idxOf d r.t with
+    | some i => app d (.mExitOne i) "threads_end: THR_EXIT to a busy worker"
+    | none => app d .mExitIdle "threads_end: THR_EXIT to an idle worker"
+  | 150 =>
+    if d.pendingAssign == some r.t then pure d else
+    match idxOf d r.t with
+    | some i =>
+      let d0 ← ensureAwake d i
+      app d0 (.wTop i 0) "worker_start: wait"
+    | none => pure d
+  | 151 =>
+    match idxOf d r.t with
+    | some i =>
+      let d0 ← ensureAwake d i
+      match workerAt d0 i, stateOf r.a with
+      | some (_, w), some st =>
+        expect (w.state == st) s!"worker {r.t} sees state {r.a}, model {repr w.state}"
+        let o0 := match lookahead evs (k + 1) r.t 159 [150, 151, 155] with | some x => x.a | none => 0
+        let d1 ← app d0 (.wTop i o0) "worker_start: got work / exit"
+        if st == .exit then pure { d1 with tidOrd := d1.tidOrd.filter (·.1 != r.t) } else pure d1
+      | _, _ => throw "no such worker in the model"
+    | none =>
+      if r.a == 4 then app d .wExitIdle "an idle worker exits" else throw s!"worker {r.t} starts a Block the model did not hand out"
+  | 159 => pure d
+  | 152 =>
+    match idxOf d r.t with
+    | some i =>
+      let d0 ← ensureAwake d i
+      match workerAt d0 i with
+      | some (_, w) => expect (w.inPos == r.a && w.outPos == r.b) s!"worker {r.t} at in_pos {r.a} out_pos {r.b}, model {w.inPos} {w.outPos}"
+      | none => throw "no worker"
+      let d1 ← app d0 (.wEnc i false 0) "worker_encode: wait for input"
+      match workerAt d1 i with
+      | some (_, w) => expect w.asleep "the implementation waits for input but the model would continue"
+      | none => throw "worker vanished"
+      pure d1
+    | none => throw s!"event of worker {r.t} which is not busy in the model"
+  | 153 =>
+    match idxOf d r.t with
+    | some i =>
+      let d0 ← ensureAwake d i
+      match workerAt d0 i, stateOf r.a with
+      | some (e, w), some st =>
+        expect (w.state == st) s!"worker {r.t} sees state {r.a}, model {repr w.state}"
+        expect (e.data.length == r.b) s!"worker {r.t} sees in_size {r.b}, model {e.data.length}"
+        expect (w.outPos == r.c) s!"worker {r.t} out_pos {r.c}, model {w.outPos}"
+        if st == .stop || st == .exit then
+          let d1 ← app d0 (.wEnc i false 0) "worker_encode: stop/exit"
+          if st == .exit then pure { d1 with tidOrd := d1.tidOrd.filter (·.1 != r.t) } else pure d1
+        else
+          match lookahead evs (k + 1) r.t 154 [152, 153, 155] with
+          | none => throw "no result of the Block encoder call in the trace"
+          | some x =>
+            if x.a == 1 then
+              let d1 ← app d0 (.wEnc i false 0) "worker_encode: Block finished"
+              match workerAt d1 i with
+              | some (_, w1) => expect (w1.pc == .markIdle && w1.resFinish) "the Block encoder returned LZMA_STREAM_END but the model's Block is not complete"
+              | none => throw "worker vanished"
+              pure d1
+            else if x.a == 0 && x.c < d0.P.alloc then
+              let d1 ← app d0 (.wEnc i false x.c) "worker_encode: encoded a piece"
+              match workerAt d1 i with
+              | some (_, w1) => expect (w1.pc == .enc && w1.inPos == x.b) s!"in_pos {x.b} after the call, model {w1.inPos} ({repr w1.pc})"
+              | none => throw "worker vanished"
+              pure d1
+            else if x.a == 0 then
+              app d0 (.wEnc i true (x.b - w.inPos)) "worker_encode: output buffer full (incompressible)"
+            else pure d0     -- an error: the worker_error event follows
+      | _, _ => throw "no such worker in the model"
+    | none => throw s!"event of worker {r.t} which is not busy in the model"
+  | 154 => pure d
+  | 156 =>
+    match idxOf d r.t with
+    | some i =>
+      let d0 ← ensureAwake d i
+      app d0 (.wFb i) "fallback: wait for the whole input"
+    | none => throw "fallback wait of an unknown worker"
+  | 157 =>
+    match idxOf d r.t with
+    | some i =>
+      let d0 ← ensureAwake d i
+      let d1 ← app d0 (.wFb i) "fallback: encode uncompressed"
+      if r.a == 4 then pure { d1 with tidOrd := d1.tidOrd.filter (·.1 != r.t) } else pure d1
+    | none => throw "fallback of an unknown worker"
+  | 158 =>
+    match idxOf d r.t with
+    | some i => app d (.wEncErr i r.a) "worker_error"
+    | none => throw "worker_error of an unknown worker"
+  | 155 =>
+    match idxOf d r.t with
+    | some i => app d (.wMarkIdle i) "worker: mark idle"
+    | none => throw "mark-idle of an unknown worker"
+  | 160 =>
+    match idxOf d r.t with
+    | some i =>
+      match workerAt d i with
+      | some (_, w) =>
+        expect (w.resFinish == (r.c == 2)) s!"worker {r.t} finished with state {r.c}, model resFinish={w.resFinish}"
+        if r.c == 2 then expect (w.outPos == r.a) s!"published size {r.a}, model {w.outPos}"
+      | none => throw "no worker"
+      let d1 ← app d (.wTail i) "worker: publish, return to threads_free"
+      pure { d1 with tidOrd := d1.tidOrd.filter (·.1 != r.t) }
+    | none => throw "publish by an unknown worker"
+  | _ => throw "unknown event code"
+
+def runTrace (tr : String) : String := Id.run do
+  let ws := tr.splitOn ","
+  let recs := ws.filterMap parseRec
+  if recs.length != ws.length then return "reject at 0 ev=0 : unparsable trace"
+  let evs := recs.toArray
+  let tabs := prescan evs
+  let mut d : DS := {}
+  let mut k := 0
+  for r in evs do
+    match feed tabs evs k d r with
+    | .ok d' => d := d'
+    | .error msg => return s!"reject at {k} ev={r.ev} t={r.t} a={r.a} b={r.b} c={r.c} : {msg}"
+    k := k + 1
+  return s!"accept {evs.size} {d.steps}"
+
+def stepLine (_ : Unit) (ws : List String) : Unit × String :=
+  match ws with
+  | ["trace", t] => ((), runTrace t)
+  | _ => ((), "bad-op")
+
+def main : IO Unit := runLoop stepLine ()
